@@ -8,7 +8,12 @@ Driver for component `allow` (C18).  Per-case state: the configured session (all
   allow inc <n>                            → ok
   allow req <fam>/<addr> <hex target>      → 403 empty | 200 ok | 200 render <marker> | <status> other
   allow fault <kind> <fam>/<addr>          → ok
-`<fam>` is `4` or `6`, `<addr>` the address as a decimal number.
+  allow build <. | bop,bop,…>              → tcp <port> | uds | push | builderr   (bop: L<port> U<id> P A<entry>)
+  allow rq <peer> <hex method> <hex target> <. | hexname:hexvalue,…>
+                                           → 403 empty | 200 ok | 200 head | 200 render <marker> | noanswer
+  allow ka <peer> <hexmethod:hextarget,…>  → answers of one keep-alive connection joined by `|`
+  allow accepterr <errno>                  → ok | stopped
+`<fam>` is `4` or `6`, `<addr>` the address as a decimal number, `<peer>` is `<fam>/<addr>/<port>` or `unix`.
 -/
 namespace MetricsVerif.Driver.Allowlist
 open MetricsVerif.Driver MetricsVerif.Allowlist
@@ -47,7 +52,47 @@ def showResp (r : Resp) : String :=
   else if r.status == 200 then s!"200 {String.ofList r.body}"
   else s!"{r.status} other"
 
-def handle (st : Option Sess) (args : List String) : Option (Option Sess × String) :=
+/-- answer to a request with method `m`: for `HEAD` only the status is visible -/
+def showResp2 (m : List Char) (r : Resp) : String :=
+  if m == headMethod && r.status == 200 then "200 head" else showResp r
+
+/-- `<fam>/<addr>/<port>` or `unix` -/
+def peerTok (s : String) : Option Peer :=
+  if s == "unix" then some .unix else
+  match s.splitOn "/" with
+  | [f, a, p] => do
+    let f ← famTok f
+    let a ← a.toNat?
+    let p ← p.toNat?
+    if a < 2 ^ f.width ∧ p < 65536 then pure (.ip ⟨f, a⟩ p) else none
+  | _ => none
+
+/-- builder call: `L<port>` with_http_listener, `U<id>` with_http_uds_listener, `P` with_push_gateway,
+    `A<fam>/<addr>/<plen|~>` add_allowed_address -/
+def bopTok (s : String) : Option BOp :=
+  match s.toList with
+  | 'L' :: r => (String.ofList r).toNat?.map .httpListener
+  | 'U' :: r => (String.ofList r).toNat?.map .udsListener
+  | ['P'] => some .pushGateway
+  | 'A' :: r => (entryTok (String.ofList r)).map .allow
+  | _ => none
+
+def showEndpoint : Endpoint → String
+  | .tcp a _ => s!"tcp {a}"
+  | .uds _ => "uds"
+  | .nolistener => "push"
+
+/-- `<hex method>:<hex target>` -/
+def reqTok (s : String) : Option Req := do
+  let (m, t) ← pairTok unhexChars unhexChars s
+  pure ⟨m, t, []⟩
+
+/-- the arm of the accept loops in the code (`src_listener_plumbing`) -/
+def arm : LoopAct := .continue
+
+abbrev DSt := Option Sess2
+
+def handle (st : DSt) (args : List String) : Option (DSt × String) :=
   match args with
   | ["parse", e] => do
     let e ← entryTok e
@@ -55,19 +100,29 @@ def handle (st : Option Sess) (args : List String) : Option (Option Sess × Stri
   | ["new", l] => do
     let es ← optTok (listTok entryTok) l
     match es with
-    | none => pure (some ⟨none, 0⟩, "ok")
+    | none => pure (some (Sess2.start (.tcp 0 none)), "ok")
     | some es =>
       -- `.` (an allowlist without entries) cannot be configured through the builder
       if es.isEmpty then none else
-      match addAll none es with
-      | some al => pure (some ⟨al, 0⟩, "ok")
+      match Builder.new.applyAll (.httpListener 0 :: es.map .allow) with
+      | some b => pure (some (Sess2.start b.build), "ok")
       | none => pure (none, "builderr")
+  | ["build", l] => do
+    let ops ← listTok bopTok l
+    match Builder.new.applyAll ops with
+    | some b => pure (some (Sess2.start b.build), showEndpoint b.build)
+    | none => pure (none, "builderr")
   | [op, a] => do
     let s ← st
     match op with
     | "inc" => do
       let n ← a.toNat?
-      pure (some (stepEv renderMarker s (.update n)).1, "ok")
+      pure (some (stepEv2 arm renderMarker s (.update n)).1, "ok")
+    | "accepterr" => do
+      let n ← a.toNat?
+      match stepEv2 arm renderMarker s (.acceptErr n) with
+      | (s', []) => pure (some s', if s'.running then "ok" else "stopped")
+      | (_, _) => none
     | _ => none
   | [op, a, b] => do
     let s ← st
@@ -75,16 +130,38 @@ def handle (st : Option Sess) (args : List String) : Option (Option Sess × Stri
     | "req" => do
       let peer ← addrTok a
       let target ← unhexChars b
-      match stepEv renderMarker s (.req peer target) with
-      | (s', some r) => pure (some s', showResp r)
-      | (_, none) => none
+      match stepEv2 arm renderMarker s ((Ev.req peer target).lift 0) with
+      | (s', [r]) => pure (some s', showResp r)
+      | (s', []) => pure (some s', "noanswer")
+      | (_, _) => none
     | "fault" => do
       let peer ← addrTok b
       let k ← faultKinds.idxOf? a
-      match stepEv renderMarker s (.fault k peer) with
-      | (s', none) => pure (some s', "ok")
-      | (_, some _) => none
+      match stepEv2 arm renderMarker s ((Ev.fault k peer).lift 0) with
+      | (s', []) => pure (some s', "ok")
+      | (_, _) => none
+    | "ka" => do
+      -- several requests on one connection
+      let peer ← peerTok a
+      let reqs ← listTok reqTok b
+      if reqs.isEmpty then none else
+      match stepEv2 arm renderMarker s (.conn peer reqs) with
+      | (s', []) => pure (some s', "noanswer")
+      | (s', rs) =>
+        if rs.length == reqs.length then
+          pure (some s', "|".intercalate ((reqs.zip rs).map (fun (q, r) => showResp2 q.method r)))
+        else none
     | _ => none
+  | ["rq", a, m, t, h] => do
+    let s ← st
+    let peer ← peerTok a
+    let m ← unhexChars m
+    let t ← unhexChars t
+    let hs ← listTok (pairTok unhexChars unhexChars) h
+    match stepEv2 arm renderMarker s (.conn peer [⟨m, t, hs⟩]) with
+    | (s', [r]) => pure (some s', showResp2 m r)
+    | (s', []) => pure (some s', "noanswer")
+    | (_, _) => none
   | _ => none
 
 end MetricsVerif.Driver.Allowlist
